@@ -169,6 +169,16 @@ def gen_c04(tier, rng):
         s2 = (r * d * pow(1 - d, -1, N)) % N
         if r and s2:
             yield ('summands-equal', 'sm2_verify_raw %s %s %s%s' % (E.enc(E.mul(d, E.G)), H(e), H(r), H(s2)), None)
+    # a VALID signature whose two summands coincide ([s]G = [t]P): the doubling branch inside verify must give 2[s]G
+    for _ in range(4 if tier == 'thorough' else 2):
+        d = rscalar(rng, 2, N - 1)
+        s_ = rscalar(rng)
+        t_ = s_ * pow(d, -1, N) % N
+        r = (t_ - s_) % N
+        x1 = E.mul(2 * s_ % N, E.G)[0]
+        e = (r - x1) % N
+        if r and (r + s_) % N:
+            yield ('valid-with-equal-summands', 'sm2_verify_raw %s %s %s%s' % (E.enc(E.mul(d, E.G)), H(e), H(r), H(s_)), 'OK')
     for idh in ids(rng, tier)[5:]:
         d = rscalar(rng, 1, N - 1)
         yield ('non-ascii-id', 'sm2_sv %s %s %s %s' % (H(d), idh, hx(b'msg'), good_k(rng)), None)
@@ -216,6 +226,21 @@ def gen_c05(tier, rng):
     for dd in edge_keys():
         yield ('edge-keys', 'sm2_ed %s %s 0 c1c3c2 %s' % (H(dd), hx(rb(rng, 20)), good_k(rng)), None)
         yield ('edge-nonces', 'sm2_ed %s %s 1 c1c2c3 %s' % (H(rscalar(rng, 1, N - 1)), hx(rb(rng, 20)), H(dd)), None)
+    # all-zero-t retry (step A5) for a 1-byte message, CRAFTED: nonces k with KDF(x2||y2, 1) = 00 found with the independent
+    # Python EC + SM3; the encryption must reject them and use the next candidate
+    from .sm9py import sm3 as _sm3
+    Ppk = E.mul(d, E.G)
+    found = []
+    kk = rscalar(rng, 1, N - 1)
+    Q_ = E.mul(kk, Ppk)
+    while len(found) < (4 if tier == 'thorough' else 2):
+        if _sm3(Q_[0].to_bytes(32, 'big') + Q_[1].to_bytes(32, 'big') + b'\x00\x00\x00\x01')[0] == 0:
+            found.append(kk)
+        kk = (kk + 1) % N
+        Q_ = E.add(Q_, Ppk)
+    for i, k0 in enumerate(found):
+        yield ('retry-all-zero-t-crafted', 'sm2_enc %s 5a %d %s %s,%s' % (E.enc(Ppk), i % 2, ['c1c3c2', 'c1c2c3'][i % 2], H(k0), good_k(rng)), None)
+        yield ('retry-all-zero-t-crafted-twice', 'sm2_ed %s 5a 0 c1c3c2 %s,%s,%s' % (H(d), H(k0), H(found[(i + 1) % len(found)]), good_k(rng)), None)
     # all-zero-t retry for a 1-byte message: probability 2^-8 per nonce; many candidate nonces in one list so some get rejected
     for _ in range(3 if tier == 'thorough' else 1):
         cands = ','.join(good_k(rng) for _ in range(700))
@@ -394,6 +419,10 @@ def gen_c14_sm2(tier, rng):
     for _ in range(40 if tier == 'thorough' else 8):
         ks = [good_k(rng) for _ in range(3)]
         yield ('sm2-injected-used', 'sm2_sign %s default %s %s' % (H(d), hx(rb(rng, 8)), ','.join(ks)), None)
+    # one long-lived pair of Exchange objects serving several sessions: every session must draw and use its own scalars
+    for ns in ([2, 3, 5] if tier == 'thorough' else [2, 3]):
+        yield ('sm2-kex-object-reuse', 'sm2_kexseq %s %s default default 16 %s %s' % (H(d), H(rscalar(rng, 1, N - 1)),
+               ','.join(good_k(rng) for _ in range(ns)), ','.join(good_k(rng) for _ in range(ns))), None)
     # un-hooked randomness: statistics are gathered by a dedicated op
     n_ = 4000 if tier == 'thorough' else 600
     yield ('frozen-sm2-rng-stats', 'sm2_rngstats %d' % n_, 'OK in-range=1 distinct=1 bits-ok=1')
@@ -410,6 +439,9 @@ def gen_c15(tier, rng):
         ida = rng.choice(['default', hx(b'alice123@qq.com')])
         idb = rng.choice(['default', hx(b'bob456@qq.com')])
         yield ('honest-klen', 'sm2_kex %s %s %s %s %d %s %s -' % (H(dA), H(dB), ida, idb, klen, good_k(rng), good_k(rng)), None)
+    for ns in ([2, 4] if tier == 'thorough' else [3]):
+        yield ('sessions-on-one-object-pair', 'sm2_kexseq %s %s default %s 24 %s %s' % (H(rscalar(rng, 1, N - 1)), H(rscalar(rng, 1, N - 1)), hx(b'bob'),
+               ','.join(good_k(rng) for _ in range(ns)), ','.join(good_k(rng) for _ in range(ns))), None)
     for ida in ids(rng, tier)[1:]:
         if len(ida) > 200:
             continue
@@ -537,6 +569,67 @@ def gen_c19(tier, rng):
         m = bytearray(der)
         m[pos] ^= 0x01
         yield ('asn1-byte-corruption', 'sm2_dec_asn1 %s %s 0 c1c3c2' % (kc['0'][1], bytes(m).hex()), None)
+    for _ in range(3 if tier == 'thorough' else 1):
+        for name, der_ in crafted_der_cts(rng):
+            yield ('asn1-crafted-fields', 'sm2_dec_asn1 %s %s 0 c1c3c2' % (H(d), der_.hex()), None)
+
+
+def _der_len(n):
+    if n < 128:
+        return bytes([n])
+    b = n.to_bytes((n.bit_length() + 7) // 8, 'big')
+    return bytes([0x80 | len(b)]) + b
+
+
+def _der_int_raw(content):
+    return b'\x02' + _der_len(len(content)) + content
+
+
+def _der_int(v):
+    b = v.to_bytes(max(1, (v.bit_length() + 7) // 8), 'big')
+    if b[0] & 0x80:
+        b = b'\x00' + b
+    return _der_int_raw(b)
+
+
+def _der_ct(xi, yi, h, c):
+    """SEQUENCE { xi, yi, OCTET STRING h, OCTET STRING c } with xi, yi already-encoded elements"""
+    body = xi + yi + b'\x04' + _der_len(len(h)) + h + b'\x04' + _der_len(len(c)) + c
+    return b'\x30' + _der_len(len(body)) + body
+
+
+def crafted_der_cts(rng):
+    """structurally valid DER ciphertexts with boundary-sized INTEGER / OCTET STRING fields (yasna accepts the syntax;
+    the size checks of decrypt_asn1 decide)"""
+    h = rb(rng, 32)
+    c = rb(rng, 5)
+    x32 = rng.randrange(1 << 255, 1 << 256)
+    y32 = rng.randrange(1 << 255, 1 << 256)
+    small = rng.randrange(1, 1 << 200)
+    out = []
+    ints = {
+        '33-significant-bytes-lead-01': _der_int((1 << 256) | x32),
+        '33-significant-bytes-lead-7f': _der_int((0x7f << 256) | x32),
+        '34-bytes': _der_int((1 << 264) | x32),
+        '64-bytes': _der_int((1 << 505) | x32),
+        'zero': _der_int(0),
+        'short': _der_int(small),
+        'negative': _der_int_raw(b'\xff' + rb(rng, 31)),
+        'non-minimal': _der_int_raw(b'\x00\x00' + rb(rng, 31)),
+        'empty-content': _der_int_raw(b''),
+        'top-bit-padded': _der_int(x32),
+    }
+    for name, enc in ints.items():
+        out.append(('x-' + name, _der_ct(enc, _der_int(y32), h, c)))
+        out.append(('y-' + name, _der_ct(_der_int(x32), enc, h, c)))
+    out.append(('both-33', _der_ct(ints['33-significant-bytes-lead-01'], ints['33-significant-bytes-lead-7f'], h, c)))
+    for hl in (0, 31, 33, 64):
+        out.append(('c3-len-%d' % hl, _der_ct(_der_int(x32), _der_int(y32), rb(rng, hl), c)))
+    for cl in (0, 1, 127, 128, 300):
+        out.append(('c2-len-%d' % cl, _der_ct(_der_int(x32), _der_int(y32), h, rb(rng, cl))))
+    out.append(('trailing-bytes', _der_ct(_der_int(x32), _der_int(y32), h, c) + b'\x00'))
+    out.append(('wrong-outer-tag', b'\x31' + _der_ct(_der_int(x32), _der_int(y32), h, c)[1:]))
+    return out
 
 
 # ----------------------------------------------------------------------------- C20 (SM2 + SM4 entry points; SM9 part in gens_sm9)
@@ -569,6 +662,9 @@ def gen_c20_sm2(tier, rng):
         yield ('boundary-keys-sign', 'sm2_sv %s default %s %s' % (H(v), hx(b'm'), good_k(rng)), None)
         yield ('boundary-keys-encrypt', 'sm2_ed %s %s 0 c1c3c2 %s' % (H(v), hx(b'm'), good_k(rng)), None)
     yield ('empty-message-encrypt', 'sm2_enc %s - 0 c1c3c2 %s' % (pk, good_k(rng)), None)
+    for _ in range(3 if tier == 'thorough' else 1):
+        for name, der_ in crafted_der_cts(rng):
+            yield ('sm2-decrypt-asn1-crafted-' + name.split('-')[0], 'sm2_dec_asn1 %s %s 0 c1c3c2' % (H(d), der_.hex()), None)
     # bad hex strings
     for s_ in (b'zz', b'0', b'04' + b'g' * 128, b''):
         yield ('hex-garbage', 'pk_hex %s' % hx(s_), None)
